@@ -135,7 +135,7 @@ def cases(ctx):
     scopes = []
     for ci, progs in enumerate(configs):
         kind = ci % 2
-        cap = ctx.n(400, 3000)
+        cap = ctx.n(400, 1500)
         n = 0
         for sched, views, info in all_schedules(kind, progs, cap):
             case = [kind, progs, sched]
@@ -146,7 +146,7 @@ def cases(ctx):
         total += n
     ctx.notes["exhaustive"] = True
     ctx.notes["exhaustive_scope"] = "every schedule (one lock/event operation per step) of: " + "; ".join(scopes)
-    for i in range(ctx.n(200, 2500)):
+    for i in range(ctx.n(200, 1500)):
         progs = gen_progs(rng, rng.choice([3, 4, 5, 6, 8]))
         sched, views, _, info = run_schedule(i % 2, progs, rng=rng)
         case = [i % 2, progs, sched]
@@ -231,6 +231,10 @@ def oracle(ctx, kind, case, out):
         # the lock is only held inside a critical section, never while waiting or working
         if lock is not None and codes[lock] not in (2, 3, 4, 10, 12, 13, 16, 18, 19):
             fail("lock held outside a critical section", i, holder=lock, pc=pcs[lock])
+        # every open reader's version is retained (reader registration is atomic with version selection)
+        for rh, rvid in readers:
+            if rvid not in ids:
+                fail("version pinned by an open reader was pruned", i, reader=rh, vid=rvid, ids=ids)
         # nobody is stuck
         if not all(c == 20 for c in codes) and not any(enabled):
             fail("deadlock: unfinished threads and no step enabled", i, pcs=pcs)
